@@ -12,6 +12,7 @@ import (
 	"sync/atomic"
 
 	"github.com/youzan/ZanRedisDB/common"
+	"github.com/youzan/ZanRedisDB/pkg/verifhook"
 )
 
 const (
@@ -485,6 +486,7 @@ func (pck *memEngCheckpoint) Save(cpath string, notify chan struct{}) error {
 	if notify != nil {
 		close(notify)
 	}
+	verifhook.Point("engine.mem.checkpoint.afterNotify")
 
 	n, fs, err := saveMemDBToFile(it, tmpFile, dataNum, pck.printToStdout)
 	// release the lock early to avoid blocking while sync file
